@@ -17,6 +17,7 @@ var (
 	c02pMulti   = sim.RegStat("probe:c02-*All-completed-after-several-transfers")
 	c02pErrMid  = sim.RegStat("probe:c02-error-in-the-middle-of-*All")
 	c02pBothDir = sim.RegStat("probe:c02-both-directions-in-flight")
+	c02pCancel  = sim.RegStat("probe:c02-cancel-with-an-operation-in-flight")
 )
 
 type c02 struct {
@@ -94,7 +95,13 @@ func runC02(c *Ctx, oneByte bool) {
 	faultsAllowed := w.Chance(2, 3)
 	for i := 0; i < steps; i++ {
 		o := d.objs[w.Choose(len(d.objs))]
-		switch w.Choose(12) {
+		switch w.Choose(13) {
+		case 12:
+			// Cancel ends a parked operation with what it has moved so far; the application resumes from that count
+			if (o.rd != nil && o.rd.completions == 0) || (o.wr != nil && o.wr.completions == 0) {
+				w.Stat(c02pCancel)
+			}
+			d.doCancel(o)
 		case 0, 1:
 			if d.canRead(o) {
 				d.startRead(o, w.Chance(1, 2), d.sizes(), w.Choose(3))
